@@ -13,6 +13,7 @@ import (
 	"io"
 	"os"
 	osexec "os/exec"
+	"path/filepath"
 	"strings"
 	"time"
 
@@ -25,6 +26,7 @@ type l3Child struct {
 	lines chan string
 	fam   string
 	mode  string
+	ops   []string // ops of the current case, to replay it once after a watchdog kill
 }
 
 var child *l3Child
@@ -33,9 +35,25 @@ func (c *l3Child) kill() {
 	if c == nil {
 		return
 	}
+	// closing stdin lets a healthy child clean up and exit by itself
 	_ = c.in.Close()
-	_ = c.cmd.Process.Kill()
-	_, _ = c.cmd.Process.Wait()
+	done := make(chan struct{})
+	go func() { _, _ = c.cmd.Process.Wait(); close(done) }()
+	select {
+	case <-done:
+	case <-time.After(500 * time.Millisecond):
+		_ = c.cmd.Process.Kill()
+		<-done
+	}
+	// whatever a killed child left behind in the l3 scratch area
+	dir := os.Getenv("VERIF_DIR")
+	if dir == "" {
+		dir = "/verif"
+	}
+	left, _ := filepath.Glob(filepath.Join(dir, "build", "tmp-l3", fmt.Sprintf("p%d-*", c.cmd.Process.Pid)))
+	for _, d := range left {
+		_ = os.RemoveAll(d)
+	}
 }
 
 func spawnChild() (*l3Child, error) {
@@ -98,6 +116,7 @@ func l3Op(f []string, op string) vlib.Res {
 			return vlib.Res{Impl: "spawn-failed", Oracle: "-"}
 		}
 		c.fam, c.mode = f[2], f[5]
+		c.ops = []string{op}
 		r, ok := c.call(op, 40*time.Second)
 		if !ok {
 			c.kill()
@@ -109,17 +128,41 @@ func l3Op(f []string, op string) vlib.Res {
 		if child == nil {
 			return vlib.Res{Impl: "no-case", Oracle: "-"}
 		}
-		// one client query (deadline sysQueryTimeout) plus the packet-settling polls, twice for shadow cases
-		r, ok := child.call(op, 2*(sysQueryTimeout+2*time.Second)+3*time.Second)
+		// one client query (deadline sysQueryTimeout) plus the packet-settling polls, twice for shadow
+		// cases, twice again for the in-process retry
+		limit := 4*(sysQueryTimeout+2*time.Second) + 3*time.Second
+		child.ops = append(child.ops, op)
+		r, ok := child.call(op, limit)
 		if !ok {
-			reason := child.fam + "-" + child.mode
-			if child.fam == "cname" && child.mode != "enforce" {
-				reason = "cname-loop-unmetered"
-			}
+			// hung or died: kill it, then replay the whole case once in a fresh child before flagging
+			fam, mode, ops := child.fam, child.mode, child.ops
 			child.kill()
 			child = nil
-			return vlib.Res{Impl: "no-reply-in-time", Oracle: fmt.Sprintf("FAIL sig=l3/%s/not-within-query-timeout/%s the query did not come back within %s; the resolving process was killed",
-				f[1], reason, 2*(sysQueryTimeout+2*time.Second)+3*time.Second), Tags: "nt"}
+			if c, err := spawnChild(); err == nil {
+				c.fam, c.mode, c.ops = fam, mode, ops
+				good := true
+				for i, o := range ops {
+					t := limit
+					if i == 0 {
+						t = 40 * time.Second
+					}
+					if r, good = c.call(o, t); !good {
+						break
+					}
+				}
+				if good {
+					child = c
+					r.Tags += ",watchdog-retried"
+					return r
+				}
+				c.kill()
+			}
+			reason := fam + "-" + mode
+			if fam == "cname" && mode != "enforce" {
+				reason = "cname-loop-unmetered"
+			}
+			return vlib.Res{Impl: "no-reply-in-time", Oracle: fmt.Sprintf("FAIL sig=l3/%s/not-within-query-timeout/%s the query did not come back within %s, twice; the resolving process was killed",
+				f[1], reason, limit), Tags: "nt"}
 		}
 		return r
 	}
@@ -167,4 +210,5 @@ func l3Serve() {
 		fmt.Fprintf(out, "%s\t%s\t%s\n", clean(r.Impl), clean(r.Oracle), clean(r.Tags))
 		out.Flush()
 	}
+	curL3.close()
 }
